@@ -258,6 +258,11 @@ def write_evidence(prop, ccfg, tier, seed, m, wall, nviol, extra):
     for k in ("states", "transitions", "traces_validated_against_impl"):
         if k in c:
             cov[k] = int(c[k])
+    if "state_hashes" in m["sets"] and "states" in c:
+        if not c.get("state_hash_overflow"):
+            cov["states"] = len(m["sets"]["state_hashes"])  # union over shards: cross-shard duplicates merged
+        else:
+            cov["states_note"] = "sum over shards (per-shard dedup only; hash set overflowed)"
     cov["exhaustive"] = bool(m["exhaustive"]) and not extra.get("errors")
     if m["caps"]:
         cov["caps_hit"] = m["caps"]
